@@ -80,7 +80,7 @@ def eval_final_modes(res, name, items):
 def skeleton_obligations(res, prop_mods, names):
     """K1 + T for a skeleton property.  Returns (ok, broken, cex) where cex maps obligation -> model path when the
     build broke (the search of DESIGN section 4, run inside the model)."""
-    ok, broken = C.proof_obligations(res, prop_mods)
+    ok, broken = C.proof_obligations(res, prop_mods, extra_targets=["theories/Spec/LifeSpec.vo", "theories/Proof/SkelCert.vo", "theories/Model/SkelTie.vo", "theories/Model/VT.vo"])
     cex = {}
     if not ok:
         try:
